@@ -3,6 +3,8 @@ import numpy as np
 
 from vmon import conds, gen, instr, models, scen
 
+from vmon.scale import S
+
 ID = 'C01'
 RULE = ('cases = (model kind x input class x sampled trainer options x start) fits observed through predict/'
         'fit_predict, the iteration hook and the posterior-routine contract, plus initialiser calls and direct '
@@ -20,7 +22,7 @@ ASSUMPTIONS = ['component densities p_k are taken from the component objects own
 def plan(tier, seed):
     rng = np.random.default_rng([seed, 101])
     cases = []
-    n_fit = 30 if tier == 'quick' else 320
+    n_fit = S(tier, 30, 320)
     classes = ['gauss', 'scaled_up', 'scaled_down', 'ragged', 'zeros', 'dup', 'lowrank', 'short']
     i = 0
     for kind in models.KINDS:
@@ -53,12 +55,12 @@ def plan(tier, seed):
             cases.append(dict(lane='fit', kind=kind, cls='gauss' if cls == 'short' else cls, K=K, N=N, D=D, lead=lead, dtype=dtype,
                               init=init, iters=iters, opts=o, rs=[seed, 1, i]))
             i += 1
-    n_init = 60 if tier == 'quick' else 600
+    n_init = S(tier, 60, 600)
     for r in range(n_init):
         cases.append(dict(lane='init', which=['uniform_normalized', 'dirichlet_uniform', 'dirichlet', 'one_hot', 'flag', 'deflation'][r % 6],
                           K=int(rng.integers(1, 7)), N=int(rng.integers(1, 40)), D=int(rng.integers(2, 9)),
                           lead=[[], [2], [2, 3]][int(rng.integers(0, 3))], pf=bool(rng.integers(0, 2)), rs=[seed, 2, r]))
-    n_rt = 60 if tier == 'quick' else 600
+    n_rt = S(tier, 60, 600)
     for r in range(n_rt):
         cases.append(dict(lane='routine', K=int(rng.integers(1, 7)), N=int(rng.integers(1, 30)), lead=[[], [3], [2, 2]][int(rng.integers(0, 3))],
                           spread=float(rng.choice([1, 30, 300, 700])), eps=float(rng.choice([0, 0, 1e-10, 1e-3])),
